@@ -426,7 +426,7 @@ func TestElGamalBLS12381G1(t *testing.T) {
 	egSequence(t, "bls12381-g1", bls12381.NewG1(), orderBLS, 300)
 }
 func TestElGamalBLS12381G2(t *testing.T) {
-	egSequence(t, "bls12381-g2", bls12381.NewG2(), orderBLS, 100)
+	egSequence(t, "bls12381-g2", bls12381.NewG2(), orderBLS, 64)
 }
 func TestElGamalPallas(t *testing.T) {
 	egSequence(t, "pallas", pasta.NewPallasCurve(), orderPallas, 150)
